@@ -93,3 +93,6 @@ def check(prog: Program, rep):
     from rules.c17 import peeling_rule
     from rules.common import RuleProxy
     peeling_rule(prog, RuleProxy(rep, "C02.R8"), "C17.R5")
+    rep.rule("C02.R9", "variables the encoders treat as fixed (edges_set_to_one / zero through queued bounds) are really fixed: queued updates reach the solver on every path (C12.R5)", floor=1)
+    from rules.c12 import apply_before_run
+    apply_before_run(prog, RuleProxy(rep, "C02.R9"), "C12.R5")
